@@ -143,5 +143,49 @@ P("C11", "exploration",
   [H("node", "h_node", 600, 60000, hprop="C11")], [A_SAN, A_OSSL, A_VCLK],
   {"roundtrip.stores": 500, "roundtrip.replica-imports": 400, "tamper.attempts": 3000})
 
+P("C19", "exploration",
+  "case 0 = the four leading-zero counters (Node.cpp, StoreProof.cpp, main.cpp via TU inclusion, digest_meets_difficulty) against a bit-by-bit reference on digests with exactly k leading zero bits for ALL k=0..256 and all difficulties 0..255; "
+  "other cases = one surface (handshake / announce / store / bootstrap token) at difficulty 0..8: 512 consecutive nonces through the real validator vs lz_ref(repository digest) >= d, CLI and node agree on the handshake surface, "
+  "single-field changes must change the acceptance vector, acceptance rate 2^-d within 6 sigma, cap of 24, every solver's nonce accepted by the matching validator; distinct = (surface, difficulty, case%256)",
+  [H("main", "h_node2", 400, 40000, hprop="C19")], [A_SAN, A_OSSL, "the digest of each surface is the repository's own digest function (reached by TU inclusion): the oracle is independent of the field encoding, SHA-256 itself is C08's subject"],
+  {"counters.exhaustive-prefix-classes": 257, "validators.handshake-samples": 20000, "validators.announce-samples": 20000, "validators.store-samples": 20000, "binding.field-variations": 300, "solvers.token": 50})
+
+P("C20", "exploration",
+  "part logic: sequences of 3..12 inbound handshakes on one node (valid; invalid key 0/1/p/p+1/2^32-1; other nonce; different key for the same claimed peer with and without its own valid PoW) at spacings 0 / 1ns / cooldown-1ns / cooldown / beyond, "
+  "cooldown 0/1/5/60 s, difficulty 0 or 2..8, through Node::handle_transport_handshake; oracle: accepted iff key in (1,p) and lz_ref(handshake digest) >= d; on rejection key unchanged and reputation lowered; on acceptance the session key equals HMAC(DH secret, sorted publics) by the reference; "
+  "part socket (h_transport): the same over real TCP with ACK/EOF observation; distinct = (difficulty, cooldown, outcome sequence)",
+  [H("logic", "h_node2", 5000, 500000, hprop="C20")], [A_SAN, A_VCLK, A_OSSL],
+  {"handshakes.admissible": 5000, "handshakes.inadmissible": 5000, "handshakes.key-derivation-checked": 3000})
+
+P("C21", "exploration",
+  "case = timed sequence of 6..35 ANNOUNCEs from 1..3 peers over socketpair sessions (unique chunk per announce so acceptance is visible) with one flaw drawn from {none, names another announcer, expired, remaining < min TTL, other chunk id, threshold unmet, assigned shard missing, undecodable/empty manifest, version < 3 with PoW, spoiled nonce}; "
+  "throttle configs incl. zero/negative (sanitised); gaps at interval/window/lock-out edges; oracle on the OBSERVED state-changing set: changed => admissible, per-peer spacing >= min interval, <= burst per window, no change while certainly locked (3 rejections in 120 s), admissible+spaced+unlocked must change state; distinct = sequence hash",
+  [H("main", "h_node2", 1500, 200000, hprop="C21")], [A_SAN, A_VCLK],
+  {"announces.delivered": 20000, "announces.state-changing": 3000, "announces.while-certainly-locked": 100})
+
+P("C22", "exploration",
+  "case = one SwarmCoordinator::compute_plan on a real KademliaTable with 0..40 candidates (expiries around now, random loads/reputations/choking), shard counts 0..255 (labels may repeat), thresholds 0..255, config values 0..65535; "
+  "oracle: provider count = min(c, s, max(target, min(max(minprov, t), c, s))) with c recomputed independently, providers distinct/live/not self/among the XOR-closest sample, each >= 1 shard, counts differ <= 1, multiset of labels assigned exactly once; distinct = (s, t, c, target, min)",
+  [H("main", "h_node2", 5000, 500000, hprop="C22")], [A_SAN, A_VCLK],
+  {"plans.computed": 5000, "plans.nonempty": 1500})
+
+P("C23", "exploration",
+  "case = history of 8..57 REQUEST (incl. repeats of an in-flight (peer,chunk) and unknown chunks) / ACK / tick / clock (timeout-1, timeout, timeout+1) steps from 1..4 socketpair peers with limits {0..3} x {0..3}; "
+  "uploads are tracked from CHUNK frames actually sent until the peer's ACK or the timeout; oracle: in-flight <= limits at every step, exactly one negative ACK for an unservable request, a peer with no in-flight upload holds no slot after the scheduler ran; distinct = sequence hash",
+  [H("main", "h_node2", 2000, 300000, hprop="C23")], [A_SAN, A_VCLK],
+  {"uploads.chunk-frames": 5000, "uploads.repeated-request-while-in-flight": 300, "uploads.timeouts": 200, "uploads.unservable-requests": 500, "uploads.slot-release-checks": 10000})
+
+P("C24", "exploration",
+  "case = history of 8..67 assigned-fetch ANNOUNCEs (incl. re-announces of an in-flight fetch from the same or another peer), chunk arrivals, ticks and clock steps (next_attempt-1ns / exact / +1ns) with peers that do / do not have a session (send succeeds / fails); limits 0..3, back-off 1..5 s doubling to <= 125 s, attempt limit 0..12; "
+  "oracle after every step: per-peer in-flight <= limit and equal to the node's counter (absent when zero), failed-attempt delays = initial*2^(k-1) capped at max (plateau after 8 doublings accepted), after a scheduling pass no fetch whose chunk is held / manifest expired / attempts exhausted; finally nothing pending; distinct = sequence hash",
+  [H("main", "h_node2", 2000, 300000, hprop="C24")], [A_SAN, A_VCLK, "in-flight is read from the node's pending table (hooked state); only failed attempts count towards the attempt limit (docs: 'cap on retries')"],
+  {"fetch.request-frames": 2000, "fetch.backoff-delays-checked": 2000, "fetch.reannounce-of-in-flight-fetch": 200, "fetch.termination-checks": 3000, "fetch.chunk-arrivals": 300})
+
+P("C34", "exploration",
+  "case = real Node with the STUN test hook returning an address at every IPv4 prefix boundary +-1, random IPv4/IPv6, IPv4-mapped IPv6 and special IPv6 ranges; start_transport(0), then config().advertised_endpoints (non-manual) and the 'transport' hints of a stored manifest; "
+  "all modes x allow_private x control hosts x manual endpoints; oracle = independent classifier of the statement's list on inet_pton bytes; mode off => nothing auto-discovered; warn+conflict => withheld; routable address in mode on must be published; distinct = (address, mode, allow_private, control host)",
+  [H("main", "h_node2", 3000, 300000, hprop="C34")], [A_SAN, "NatTraversalManager::TestHooks::stun_override (existing repository test hook) supplies the discovered address"],
+  {"advertise.cases": 3000, "advertise.stun-address-nonroutable": 1000, "advertise.must-publish-cases": 100})
+
 NOT_APPLICABLE = {}
 HOOK_COMMITS = []
